@@ -373,6 +373,8 @@ class Batch:
     def condS(self):
         if getattr(self, "unidentified", False):
             return float("inf")
+        if len(self.Y) and float(np.max(np.abs(self.Sig))) * float(np.linalg.cond(self.C @ self.Sig @ self.C.T)) > 1e9:
+            return float("inf")        # prior variance x cond(S): the conditional moments lose more digits than the tolerance allows
         if len(self.Y) == 0:
             return 1.0
         S = self.C @ self.Sig @ self.C.T
@@ -674,8 +676,39 @@ def gen_sel(rng, nper):
     return sel
 
 
-def gen_e2e_case(rng, nper_max=10, unit_root=False, noncontiguous=False):
-    mc = gen_model(rng, unit_root=unit_root)
+def gen_persistent_model(rng):
+    """stationary but HIGHLY PERSISTENT: real roots 0.98 ... 0.9995 on the diagonal of a lower-triangular A1 (eigenvalues = diagonal),
+    optionally a complex pair rho*exp(+-i*theta) with modulus close to 1 as a rotation block; the unconditional variances are
+    1/(1-rho^2) ~ 25 ... 1000 times the shock variances, so the initial MSE of the filter matters"""
+    mc = gen_model(rng)
+    nx = len(mc["logx"])
+    A0 = np.zeros((nx, nx)); A2 = np.zeros((nx, nx)); A1 = np.zeros((nx, nx))
+    roots = [0.98, 0.99, 0.995, 0.999, 0.9995]
+    for i in range(nx):
+        A1[i, i] = rng.choice(roots) * (-1 if rng.chance(0.15) else 1)
+    # (no cross terms between the persistent states: cascaded near-unit roots give unconditional variances of 1e6 and more, where
+    #  the batch oracle itself -- V - C S^-1 C' with cond(S) ~ 1e7 -- loses the digits the comparison needs)
+    if nx >= 2 and rng.chance(0.45):
+        rho = rng.choice([0.98, 0.99, 0.995, 0.998]); th = rng.choice([0.3, 0.8, 1.5, 2.4])
+        A1[0, 0] = round(rho * math.cos(th), 6); A1[0, 1] = round(-rho * math.sin(th), 6)
+        A1[1, 0] = round(rho * math.sin(th), 6); A1[1, 1] = round(rho * math.cos(th), 6)
+    mc["A0"], mc["A1"], mc["A2"] = A0.tolist(), A1.tolist(), A2.tolist()
+    ne = len(mc["std_e"])
+    E = np.zeros((nx, ne))
+    for j in range(ne): E[j, j] = 1.0
+    for i in range(ne, nx): E[i, rng.randint(0, ne - 1)] = r2(rng, 0.2, 1.0)
+    mc["E"] = E.tolist()
+    mc["M1"] = (np.array(mc["M1"]) * 0).tolist()
+    # every observable with its own measurement shock: the stacked covariance stays well conditioned
+    ny = len(mc["logy"])
+    mc["Hw"] = np.eye(ny).tolist(); mc["std_w"] = [rng.choice([0.3, 0.7, 1.0]) for _ in range(ny)]
+    mc["c"] = [round(v * 0.01, 4) for v in mc["c"]]
+    mc["persistent"] = True
+    return mc
+
+
+def gen_e2e_case(rng, nper_max=10, unit_root=False, noncontiguous=False, persistent=False):
+    mc = gen_persistent_model(rng) if persistent else gen_model(rng, unit_root=unit_root)
     nper = rng.randint(5 if noncontiguous else (4 if unit_root else 3), nper_max)
     data = gen_data(rng, mc, nper)
     case = {"mc": mc, "data": data, "deviation": bool(rng.chance(0.5 if unit_root else 0.3)), "rescale": bool(rng.chance(0.3))}
